@@ -27,8 +27,8 @@ Proof. exact read_with_spec. Qed.
 
 Theorem C02_invariant_after_every_history :
   forall (K : N) (cfg : config) (ops : list op),
-    s_f2 (reach K cfg ops) = false -> IdxInv (reach K cfg ops).
-Proof. intros K cfg ops H. apply (BlobsOk_IdxInv K). apply reach_Inv, H. Qed.
+    IdxInv (reach K cfg ops).
+Proof. exact reach_IdxInv. Qed.
 
 Print Assumptions C02_read_all_with_deletion_marker.
 Print Assumptions C02_read_all.
